@@ -234,7 +234,9 @@ def run_check(ctx):
         f4 = f4 + f6
         from .. import surface
         n5, f5 = surface.c13_constants(ctx, pool); ctx.cov['evaluations'] += n5
-        f3 = f3 + f4 + f5
+        n7, f7 = G.equality_family(ctx.rng.fork('eqfam'), pool, scale, E, t2_translate, rescale, neg_pt); ctx.cov['evaluations'] += n7; ctx.cov['distinct_nontrivial'] += n7
+        f7 = [('C13 equality gadgets: %s (%s)' % (desc, l[:110]), {'script': [l], 'output': [o]}, {'class': 'equality_representatives', 'kind': kind, 'op': l.split()[0]}) for kind, desc, l, o in f7]
+        f3 = f3 + f4 + f5 + f7
     except RuntimeError as e:
         ctx.violation('harness or model failed: %s' % str(e)[:300], {'stage': 'build', 'log': str(e)[-3000:]}, {'stage': 'build'}, found_input=False); return
     # the property predicate on the implementation is evaluated on every run (value agreement with native code, lazy rule)
